@@ -1,10 +1,12 @@
 #!/usr/bin/env python3
 """Runs the quick tier of the given checks against every seeded mutant in an isolated scratch copy
 (scratch worktree of /repo + scratch copy of runner/), never touching /repo. Writes seeded/MATRIX.json.
-usage: mutant_matrix.py [--checks C01,C08,...] [--only C08-1,...] [--tier quick]"""
+usage: mutant_matrix.py [--checks C01,C08,...] [--only C08-1,...] [--tier quick] [--first-only] [--out FILE]
+--first-only: run the check of the property the change breaks first and stop at the first check that catches it (rows are then
+partial: "which check catches it", not "which checks catch it"). env MX: scratch directory (several instances can run side by side)."""
 import glob, json, os, shutil, subprocess, sys, time
 ROOT = os.path.dirname(os.path.dirname(os.path.abspath(__file__)))
-MX = "/tmp/mx"
+MX = os.environ.get("MX", "/tmp/mx")
 ALL = ["C01", "C08", "C09", "C10", "C12", "C14", "C15", "C16"]
 
 def sh(cmd, cwd=None, env=None, timeout=3600):
@@ -14,7 +16,10 @@ def sh(cmd, cwd=None, env=None, timeout=3600):
 def main():
     args = sys.argv[1:]
     checks = ALL; only = None; tier = "quick"
+    first_only = "--first-only" in args
+    out_path = None
     for i, a in enumerate(args):
+        if a == "--out": out_path = args[i + 1]
         if a == "--checks": checks = args[i + 1].split(",")
         if a == "--only": only = args[i + 1].split(",")
         if a == "--tier": tier = args[i + 1]
@@ -35,7 +40,7 @@ def main():
     t = open(runner + "/Cargo.toml").read().replace('path = "/repo/yarel"', 'path = "%s/yarel"' % repo)
     open(runner + "/Cargo.toml", "w").write(t)
     env = dict(os.environ, VERIF_RUNNER_DIR=runner, VERIF_OUT_DIR=MX + "/out")
-    matrix_path = os.path.join(ROOT, "seeded", "MATRIX.json")
+    matrix_path = out_path or os.path.join(ROOT, "seeded", "MATRIX.json")
     matrix = json.load(open(matrix_path)) if os.path.exists(matrix_path) else {}
     for d in sorted(glob.glob(ROOT + "/seeded/C*-*")):
         mid = os.path.basename(d)
@@ -44,13 +49,17 @@ def main():
         rc, out = sh("git apply %s/patch.diff" % d, cwd=repo)
         if rc != 0:
             print(mid, "PATCH DOES NOT APPLY", out[-200:]); continue
-        row = matrix.get(mid, {})
-        for c in checks:
+        row = {} if first_only else matrix.get(mid, {})
+        own = json.load(open(d + "/meta.json")).get("property") or mid.split("-")[0]
+        order = ([own] if own in checks else []) + [c for c in checks if c != own]
+        for c in order:
             t0 = time.time()
             rc, out = sh("./check %s --tier %s" % (c, tier), cwd=ROOT, env=env)
             viol = [l for l in out.splitlines() if l.startswith("violation class=")]
             row[c] = {"exit": rc, "seconds": round(time.time() - t0, 1), "first_violation": viol[0][:300] if viol else None}
             print(mid, c, "exit=%d" % rc, "%.0fs" % (time.time() - t0), (viol[0][:140] if viol else ""), flush=True)
+            if first_only and rc == 1:
+                break
         matrix[mid] = row
         json.dump(matrix, open(matrix_path, "w"), indent=1, sort_keys=True)
     sh("git reset -q --hard", cwd=repo)
